@@ -156,6 +156,15 @@ func checkStartup(r *R, sp engSpec, res *engResult) {
 		r.Note("cut-short:cancel-or-failure")
 		return
 	}
+	// the context a gun was bound with lives as long as its instance fires: a gun that honours it (the connect gun
+	// dials with it, custom guns pass it to their requests) is otherwise taken out of the run while its instance goes on
+	for _, e := range res.Evs {
+		if (e.Kind == "shoot-in" || e.Kind == "shoot-out") && e.CtxDone {
+			r.Fail("gun-context-done-while-firing", "the context instance %d's gun was bound with was already done at its %s at %v, although the run was neither cancelled nor failed (startup %s, rps %s, first out-of-ammo at %v, rps end at %v)",
+				e.Inst, e.Kind, e.T, sp.Startup.Desc, sp.RPS.Desc, ammoOutAt, rpsEndAt)
+			break
+		}
+	}
 	// no reduction: once started an instance keeps firing until its RPS profile or the ammo is exhausted
 	for task, inst := range instTask {
 		if k := lastOf[task]; k != "rps-exhausted" && k != "ammo-out" {
